@@ -18,7 +18,7 @@ import re
 from sa.interp import Interp, Scenario, Sym, Const, Bytes, Enum, render, render_items, merge_consts, sl, lin_norm
 from sa.loader import AnalysisError, dotted
 from sa import sigdata
-from sa.templates import b2i_forms
+from sa.templates import b2i_forms, unmodelled
 
 noinline = lambda f: False  # noqa: E731
 
@@ -362,6 +362,8 @@ def check_consumers(rep, prog):
         its = merge_consts(s.ret.items) if isinstance(s.ret, Bytes) else []
         area = [render_items([i]) for i in its if 'subpackets' in render_items([i]) and i[0] != 'INT']
         want = '%s.subpackets.__hashbytearray__()' % X
+        if area != [want] and unmodelled(render(s.ret)) is not None:
+            raise AnalysisError('SignatureV4.canonical_bytes: %r is outside what the byte-term interpreter models' % unmodelled(render(s.ret)))
         rep.check(area == [want], 'C05.4', 'SignatureV4.canonical_bytes', 'hashed area term %s' % area,
                   'an attested signature is hashed with its hashed area as received', where=cb.where, expected=want, found=area)
 
